@@ -26,6 +26,8 @@ func c17Tokens() []c17Tok {
 		{Text: "/* TODO: blk */", Kind: "block", Expect: "req", Message: "blk"},
 		{Text: "# TODO: hash", Kind: "hash", Expect: "req", Message: "hash"},
 		{Text: "\"// TODO in string\"", Kind: "literal"},
+		{Text: "// TODO (a,b) x", Kind: "line", Expect: "req", Message: "(a,b) x"},
+		{Text: "// TODO (see: #12/a?b=c;d) y", Kind: "line", Expect: "req", Message: "(see: #12/a?b=c;d) y"},
 		{Text: "//", Kind: "line"},
 		{Text: "#", Kind: "hash"},
 		{Text: "/**/", Kind: "block"},
